@@ -2,6 +2,10 @@
 # Regenerates /verif/MANIFEST.json from the table below (single source of truth for the interface).
 import json
 CLAIMED = {
+ "C01": dict(level="fault_enumeration", design="DESIGN.md §4.5",
+   technique="deterministic fault injection on the storage seam (at-rest corruption, EOF anywhere, sector faults, splices) + metered allocator / stack / work budgets, each case walked through every read entry point in a supervised worker process",
+   text="Valid stored documents (corpus incl. encrypted files, generated documents) suffer seeded sequences of at-rest storage faults before open; the walker then makes every read call of the property's list, each under catch_unwind, under allocation / log-event meters, on a 2 MiB or 8 MiB stack, in {strict, tolerant} x {cached, uncached}; a worker death (stack overflow, abort, allocation refusal, timeout) is attributed to its case, confirmed twice and named by the library call being made. Complete enumeration of truncation points (and, thorough, of single-bit flips) on the small documents plus seeded multi-fault cases.",
+   note="Covers 'valid file + storage faults', not arbitrary byte strings nor grammar-generated texts; resource constants are deliberately loose bounds against unboundedness."),
  "C02": dict(level="exploration", design="DESIGN.md §4.4",
    technique="deterministic simulation of successive writers appending revisions to an append-only medium, crash points at every revision boundary; log-replay ordering check against a 'newest mention wins' map model",
    text="Seeded update histories (1-8 revisions, 3-12 object numbers; classic tables and xref streams with arbitrary subsection / Index splits, W widths incl. width 0, filters; objects direct, compressed in one or two object streams, freed with generation+1, reused; Size growth; moving Root) written by the harness's independent writer and cross-checked by its strict reader; the library opens the medium after every append in strict+uncached and tolerant+cached mode and every object number below /Size plus the trailer is compared with the model. Sampling, not proof.",
